@@ -126,6 +126,7 @@ def cut(X3, lens):
     return pd.DataFrame({"dim_%d" % j: [pd.Series(X3[i, j, : lens[i]].copy()) for i in range(n)] for j in range(c)})
 
 
+COL_LABELS = [None]  # names of the nested frame's columns (set per case): None = default names, or integers that are not the positions
 CELL_STEP = [0]  # difference between the time index origins of consecutive instances (set per case)
 CELL_ORIGIN = [0]  # time index origin of the Series cells of nested frames built by wrap() (set per case)
 
@@ -144,6 +145,11 @@ def wrap(X3, container, labels=None, lens=None):
                 c = X.iat[i, j]
                 o = CELL_ORIGIN[0] + i * CELL_STEP[0]
                 c.index = pd.RangeIndex(o, o + len(c))
+    if COL_LABELS[0] and X.shape[1] >= 2:
+        # column names are not data either: integer names that differ from the positions (a
+        # column subset / reordering of an integer-named frame); a 3-D array knows positions only
+        k = X.shape[1]
+        X.columns = pd.Index(list(range(k - 1, -1, -1)) if COL_LABELS[0] == "int_reversed" else list(range(1, k + 1)))
     if STATIC[0]:
         X[X.columns[-1]] = X3[:, -1, 0].copy()
     if labels is not None:
@@ -160,6 +166,9 @@ def oracle(case, ctx):
     spec = case["spec"]
     CELL_ORIGIN[0] = int(case.get("cell_origin") or 0)
     CELL_STEP[0] = int(case.get("cell_step") or 0)
+    COL_LABELS[0] = case.get("col_labels")
+    if COL_LABELS[0]:
+        ctx.label("integer_column_names_" + COL_LABELS[0])
     if CELL_STEP[0]:
         ctx.label("per_instance_time_labels")
     if CELL_ORIGIN[0]:
@@ -332,7 +341,7 @@ def cases(draw, family):
         "subset": draw(st.lists(st.integers(0, 5), min_size=1, max_size=4)),
         "fit_container": draw(st.sampled_from(["nested", "numpy3d"])),
         "apply_container": draw(st.sampled_from(["nested", "numpy3d"])),
-        "keep_labels": draw(st.booleans()), "prefit": draw(st.integers(0, 3)) == 0, "cell_origin": draw(st.sampled_from([0, 0, 3, -2])), "static_col": draw(st.booleans()), "cell_step": draw(st.sampled_from([0, 0, 0, 3, 7])), "int_panel": draw(st.integers(0, 4)) == 0,
+        "keep_labels": draw(st.booleans()), "prefit": draw(st.integers(0, 3)) == 0, "cell_origin": draw(st.sampled_from([0, 0, 3, -2])), "static_col": draw(st.booleans()), "cell_step": draw(st.sampled_from([0, 0, 0, 3, 7])), "col_labels": draw(st.sampled_from([None, None, "int_reversed", "int_shifted"])), "int_panel": draw(st.integers(0, 4)) == 0,
         "unequal": draw(st.one_of(st.none(), st.lists(st.integers(0, 30), min_size=2, max_size=6))),
         "fit_labels": draw(st.sampled_from([None, None, "shifted", "reversed", "shuffled", "strings"])),
     }
@@ -391,6 +400,10 @@ def oracle_grid(case, ctx):
     return discs
 
 
+def panelpool_univariate(k):
+    return k in panelpool.UNIVARIATE_ONLY or k in ("tsf", "rise", "stsf", "boss", "iboss", "cboss", "tsfr")
+
+
 def enum_every_kind(tier):
     """Every runnable panel transformer / classifier / regressor x container x row-label variant
     x {fresh, refitted} on fixed panels (the discrete part of the domain, exhaustively)."""
@@ -415,6 +428,13 @@ def enum_every_kind(tier):
         if k in STATIC_OK:
             yield dict(base, family=fam, spec=spec, fit_container="nested" if (labels or origin) else cont, apply_container=cont,
                        keep_labels=labels is not None, fit_labels=labels, prefit=prefit, cell_origin=origin, static_col=True)
+        if not panelpool_univariate(k) and labels is None and not origin and not prefit:
+            # multivariate kinds: nested frames whose integer column names are not the positions,
+            # at fit time, at apply time, or both
+            for fc, ac in (("nested", "numpy3d"), ("numpy3d", "nested"), ("nested", "nested")):
+                for cl in ("int_reversed", "int_shifted"):
+                    yield dict(base, family=fam, spec=spec, fit_container=fc, apply_container=ac, keep_labels=False, fit_labels=None,
+                               prefit=False, cell_origin=0, col_labels=cl)
 
 
 def subchecks():
